@@ -34,6 +34,9 @@ import (
 )
 
 func run(t *testing.T, tape *simrt.Tape) *hx.Outcome {
+	if tape.Draw("cfg.campaign", 4) == 0 { // own stream: older tapes replay unchanged
+		return runDaemon(t, tape)
+	}
 	out := &hx.Outcome{Counters: map[string]int{}}
 	d := func(n int) int { return tape.Draw("gen", n) }
 	kind := []string{"prefetch-landmark", "prefetch-landmark", "no-prefetch-landmark", "no-landmark"}[d(4)]
